@@ -2536,9 +2536,15 @@ def r_hournoise(E):
 
 
 # ---------------------------------------------------------------------------------------------- R-FLATONCE
-# collections that are legitimately concatenated without de-duplication: (class, property) -> reason
-FLAT_EXEMPT = {("ServerBase", "jobs"): "the jobs that point to the server directly and the jobs of the services installed on it "
-                                       "are disjoint lists (a job has one server link: the server or the service)"}
+# the navigation properties that go *up* the model (from a job to the usage patterns that reach it, from a network to the
+# systems it belongs to …): several paths lead to the same object, and each of these returns every object once. Confirmed
+# one by one on the pinned tree (all de-duplicate the whole gathered list). Collections that go *down* and keep
+# multiplicity on purpose (UsageJourney.jobs: a job listed in two steps runs twice; ServerBase.jobs: disjoint lists;
+# System.all_linked_objects …) are not in the table.
+FLAT_ONCE = [("Country", "systems"), ("HardwareBase", "systems"), ("InfraHardware", "systems"), ("JobBase", "usage_journeys"),
+             ("JobBase", "usage_patterns"), ("JobBase", "systems"), ("Network", "systems"), ("Network", "jobs"),
+             ("Storage", "jobs"), ("UsageJourney", "systems"), ("UsageJourneyStep", "usage_patterns"),
+             ("UsageJourneyStep", "systems")]
 
 
 def _flattenings(e):
@@ -2560,52 +2566,59 @@ def _flattenings(e):
 @rule("R-FLATONCE")
 def r_flatonce(E):
     pm = E.pm
-    res = RuleResult("R-FLATONCE", "a property of a model class that gathers objects along several paths (the usage patterns of "
-                                   "a job through each of its steps, the systems of a network through each usage pattern) "
-                                   "de-duplicates the *whole* gathered list: paths often lead to the same object, and whatever "
-                                   "is computed per element of the list would count it once per path")
-    # module-level functions that return their argument de-duplicated: def distinct(xs): return list(set(xs))
-    dedup_fns = set()
-    for mod, (rel, tree, src) in pm.modules.items():
-        for f in tree.body:
-            if isinstance(f, ast.FunctionDef) and len(f.args.args) == 1:
-                rets = [r.value for r in ast.walk(f) if isinstance(r, ast.Return) and r.value is not None]
-                p_ = f.args.args[0].arg
-                if len(rets) == 1 and any(isinstance(c, ast.Call) and norm(c.func) in ("set", "frozenset", "dict.fromkeys")
-                                          and c.args and norm(c.args[0]) == p_ for c in ast.walk(rets[0])):
-                    dedup_fns.add(f.name)
+    res = RuleResult("R-FLATONCE", "the navigation properties that gather objects *up* the model along several paths (the usage "
+                                   "patterns of a job through each of its steps, the systems of a network through each usage "
+                                   "pattern) de-duplicate the *whole* gathered list: paths often lead to the same object, and "
+                                   "whatever is computed per element of the list would count it once per path")
+    from ..astutil import straightline_value, set_parents as _sp_f
+    pff = pm.package_function_finder()
+
+    def is_dedup_call(p):
+        if not isinstance(p, ast.Call):
+            return False
+        if norm(p.func) in ("set", "frozenset", "dict.fromkeys"):
+            return True
+        # a function of the package that returns its argument de-duplicated: def distinct(xs): return list(set(xs))
+        f = pff(p.func.id) if isinstance(p.func, ast.Name) else None
+        if f is not None and len(f.args.args) >= 1:
+            rets = [r.value for r in ast.walk(f) if isinstance(r, ast.Return) and r.value is not None]
+            p0 = f.args.args[0].arg
+            return len(rets) == 1 and any(isinstance(c, ast.Call) and norm(c.func) in ("set", "frozenset", "dict.fromkeys")
+                                          and c.args and any(isinstance(y, ast.Name) and y.id == p0 for y in ast.walk(c.args[0]))
+                                          for c in ast.walk(rets[0]))
+        return False
 
     def deduplicated(x, stop):
         p = getattr(x, "_parent", None)
         while p is not None and p is not stop:
-            if isinstance(p, ast.Call) and (norm(p.func) in ("set", "frozenset", "dict.fromkeys") or norm(p.func) in dedup_fns):
-                return True
-            if isinstance(p, (ast.SetComp,)):
+            if is_dedup_call(p) or isinstance(p, ast.SetComp):
                 return True
             p = getattr(p, "_parent", None)
         return False
-    for cn in sorted(pm.classes):
-        if not pm.is_model(cn):
+    for cn, prop in FLAT_ONCE:
+        owner, f = pm.find_method(cn, prop) if cn in pm.classes else (None, None)
+        if f is None:
+            res.undecided.append(f"{cn}.{prop} vanished")
             continue
-        for f in pm.own_methods(cn):
-            if not is_property(f):
-                continue
-            for r in [x for x in ast.walk(f) if isinstance(x, ast.Return) and x.value is not None]:
-                for fl in _flattenings(r.value):
-                    res.instances += 1
-                    if (cn, f.name) in FLAT_EXEMPT:
-                        res.notes.append(f"{cn}.{f.name}: exempt — {FLAT_EXEMPT[(cn, f.name)]}")
-                        continue
-                    if not deduplicated(fl, r):
-                        res.findings.append(Finding(
-                            "R-FLATONCE", f"{cn}.{f.name} :: gathered without de-duplication",
-                            f"{cn}.{f.name} gathers `{norm(fl)[:70]}` along several paths and returns it without "
-                            f"de-duplicating the whole list (a set() inside the paths does not help: two paths can lead to "
-                            f"the same object): the object is listed once per path, and what is computed per element — "
-                            f"occurrences per usage pattern, footprints per job — counts it several times", pm.path_of(cn),
-                            r.lineno, f"{cn}.{f.name}"))
-                    elif len(res.samples) < 4:
-                        res.samples.append({"property": f"{cn}.{f.name}", "gathers": norm(fl)[:70], "verdict": "de-duplicated"})
-    res.breakdown = {"dedup_functions": sorted(dedup_fns), "exempt": sorted(f"{a}.{b}" for a, b in FLAT_EXEMPT)}
-    res.floor = 10
+        res.instances += 1
+        # a decorator that de-duplicates what the function returns covers everything in it
+        if any(pff(norm(d).split("(")[0]) is not None and any(
+                isinstance(c, ast.Call) and norm(c.func) in ("set", "frozenset", "dict.fromkeys")
+                for c in ast.walk(pff(norm(d).split("(")[0]))) for d in f.decorator_list):
+            continue
+        for r in [x for x in ast.walk(f) if isinstance(x, ast.Return) and x.value is not None]:
+            fls = _flattenings(r.value)
+            for fl in fls:
+                if not deduplicated(fl, r):
+                    res.findings.append(Finding(
+                        "R-FLATONCE", f"{cn}.{prop} :: gathered without de-duplication",
+                        f"{cn}.{prop} gathers `{norm(fl)[:70]}` along several paths and returns it without "
+                        f"de-duplicating the whole list (a set() inside the paths does not help: two paths can lead to "
+                        f"the same object): the object is listed once per path, and what is computed per element — "
+                        f"occurrences per usage pattern, footprints per job — counts it several times", pm.path_of(owner),
+                        r.lineno, f"{cn}.{prop}"))
+                elif len(res.samples) < 4:
+                    res.samples.append({"property": f"{cn}.{prop}", "gathers": norm(fl)[:70], "verdict": "de-duplicated"})
+    res.breakdown = {"properties": [f"{a}.{b}" for a, b in FLAT_ONCE]}
+    res.floor = 12
     return res
